@@ -233,10 +233,10 @@ Proof.
   destruct (ev_beq e y); cbn; [discriminate|]. intro H. now rewrite IH.
 Qed.
 
-Lemma step_hearly prog s t s' : Inv1 s -> Inv3 s -> Inv4a s -> Inv4b s -> step false prog s t = Some s' ->
+Lemma step_hearly prog s t s' : Inv1 s -> Inv1b s -> Inv3 s -> Inv4a s -> Inv4b s -> step false prog s t = Some s' ->
   forall r, inb (EUnregRet #r) (before EInstallCall (hist s')) = true -> unreg s' r = RNil /\ sreg s' r = 0.
 Proof.
-  intros HI HK HL [Hpre Hearly _ _] Hs. get_inv HI. get_inv3 HK. get_inv4a HL. clear HI HK HL.
+  intros HI [Hb1 Hb2] HK HL [Hpre Hearly _ _] Hs. get_inv HI. get_inv3 HK. get_inv4a HL. clear HI HK HL.
   inv_step Hs; pc_facts; simp_st; intros r' Hr';
     pose proof (Hearly r') as Hk; pose proof (Htab r') as Ht; pose proof (Hhur r') as Hur;
     repeat (hist_simp2;
@@ -244,6 +244,153 @@ Proof.
     hist_simp2; ev_cases; rewrite ?orb_false_r, ?orb_true_r in *;
     try (destruct (Hk Hr') as [K1 K2]; upd_cases; try (split; assumption); try congruence;
          try contra_fresh; try (destruct Ef; congruence); fail).
-  all: match goal with E : pcs _ _ = ?P |- _ => idtac "REMAIN" P end.
-  Show 1.
+  all: try congruence.
+  all: match goal with Hpre : ?A -> _ /\ _ |- _ =>
+         let HA := fresh in assert (HA : A) by (reflexivity || assumption);
+         destruct (Hpre HA) as [P1 [P2 P3]]; clear Hpre end.
+  all: try (exfalso; match goal with E : pcs _ ?t = _ |- _ => destruct (P1 t) as [X1 X2]; rewrite E in *; (discriminate || congruence) end).
+  all: try (exfalso; match goal with E : mdel _ ?k = true |- _ => rewrite P2 in E; discriminate end).
+  all: try (match type of Hr' with inb _ _ = true =>
+              destruct (Hur Hr') as [X|X]; rewrite X in Ht; cbn in Ht;
+              [ | exfalso; match goal with |- _ => rewrite P3 in Ht; lia end ] end).
+  all: rewrite ?upd_same; upd_cases; try (split; [assumption | apply P3]); try (split; [reflexivity | apply P3]);
+       try congruence; try contra_fresh.
+  all: try (exfalso; match goal with E : unreg _ _ = _ |- _ => rewrite E in Ht; cbn in Ht; rewrite P3 in Ht; lia end).
+  all: try (exfalso; match goal with E : pcs _ _ = UHold _ |- _ => pose proof (Hb1 _ _ (or_intror E)); congruence end).
 Qed.
+
+Lemma step_inv4b prog s t s' : Inv1 s -> Inv1b s -> Inv3 s -> Inv4a s -> Inv4b s ->
+  step false prog s t = Some s' -> Inv4b s'.
+Proof.
+  intros HI HB HK HL HM Hs. constructor.
+  - eapply step_hpre; eassumption.
+  - eapply step_hearly; eassumption.
+  - eapply step_hafter_reg; eassumption.
+  - eapply step_hafter_unreg; eassumption.
+Qed.
+
+Lemma init_inv4b : Inv4b init.
+Proof. constructor; cbn; intros; try reflexivity; try discriminate. repeat split; auto; discriminate. Qed.
+
+(** ** Measurements *)
+Record Inv4c (s : st) : Prop := mkInv4c {
+  g_once : forall n, count (ESdkRec #n) (hist s) <= 1 /\ (pcs s n <> Done -> count (ESdkRec #n) (hist s) = 0);
+  g_ret : forall n, inb (ERecRet #n) (hist s) = true -> pcs s n = Done;
+  g_call : forall n i i', pcs s n = RRec i -> inb (ERecCall #i' #n) (after EInstallRet (hist s)) = true ->
+                          once s = ODone;
+  g_nocall : forall n i', pcs s n = Start -> inb (ERecCall #i' #n) (hist s) = false;
+  g_fwd : forall n i, inb (ERecCall #i #n) (after EInstallRet (hist s)) = true ->
+                      inb (ERecRet #n) (hist s) = true -> count (ESdkRec #n) (hist s) = 1 }.
+
+Ltac get_inv4c HN :=
+  pose proof (g_once _ HN) as Hgo; pose proof (g_ret _ HN) as Hgr; pose proof (g_call _ HN) as Hgc;
+  pose proof (g_nocall _ HN) as Hgn; pose proof (g_fwd _ HN) as Hgf.
+
+Lemma step_gonce prog s t s' : Inv4c s -> step false prog s t = Some s' ->
+  forall n, count (ESdkRec #n) (hist s') <= 1 /\ (pcs s' n <> Done -> count (ESdkRec #n) (hist s') = 0).
+Proof.
+  intros HN Hs. get_inv4c HN. clear HN.
+  inv_step Hs; simp_st; intros n'; destruct (Hgo n') as [G1 G2]; hist_simp; ev_cases; upd_cases; cbn;
+    rewrite ?Nat.add_0_r; try (split; [assumption | first [assumption | congruence]]);
+    try (split; [assumption | intros _; apply G2; congruence]);
+    try (rewrite G2 by congruence; split; [lia | congruence]).
+Qed.
+
+Lemma step_gret prog s t s' : Inv4c s -> step false prog s t = Some s' ->
+  forall n, inb (ERecRet #n) (hist s') = true -> pcs s' n = Done.
+Proof.
+  intros HN Hs. get_inv4c HN. clear HN.
+  inv_step Hs; simp_st; intros n' Hn'; hist_simp; ev_cases; upd_cases; rewrite ?orb_false_r in *;
+    try reflexivity; try (apply Hgr; assumption); try (apply Hgr in Hn'; congruence).
+Qed.
+
+Lemma step_gnocall prog s t s' : Inv4c s -> step false prog s t = Some s' ->
+  forall n i', pcs s' n = Start -> inb (ERecCall #i' #n) (hist s') = false.
+Proof.
+  intros HN Hs. get_inv4c HN. clear HN.
+  inv_step Hs; simp_st; intros n' i' Hn'; hist_simp; upd_cases; try discriminate; ev_cases;
+    rewrite ?orb_false_r in *; try (apply Hgn; assumption); try congruence.
+Qed.
+
+Lemma step_gcall prog s t s' : Inv4a s -> Inv4c s -> step false prog s t = Some s' ->
+  forall n i i', pcs s' n = RRec i -> inb (ERecCall #i' #n) (after EInstallRet (hist s')) = true ->
+                 once s' = ODone.
+Proof.
+  intros HL HN Hs. get_inv4a HL. get_inv4c HN. clear HL HN.
+  inv_step Hs; simp_st; intros n' i0 i' Hn' Hc';
+    repeat (hist_simp2;
+            match goal with H : context [if ?b then _ else _] |- _ => destruct b eqn:? end);
+    hist_simp2; upd_cases; try discriminate; ev_cases; rewrite ?orb_false_r, ?orb_true_r in *;
+    try (cbn in Hc'; discriminate);
+    try (eapply Hgc; eassumption);
+    try (apply Hhi; assumption);
+    try reflexivity;
+    try (assert (X : once s = ODone) by (first [eapply Hgc; eassumption | apply Hhi; assumption]); congruence);
+    try (apply Hhi; reflexivity);
+    try (exfalso; pose proof (Hgc _ _ _ Hn' Hc') as X; discriminate X);
+    try assumption.
+Qed.
+
+Lemma step_gfwd prog s t s' : Inv1 s -> Inv2 s -> Inv4a s -> Inv4c s -> step false prog s t = Some s' ->
+  forall n i, inb (ERecCall #i #n) (after EInstallRet (hist s')) = true ->
+              inb (ERecRet #n) (hist s') = true -> count (ESdkRec #n) (hist s') = 1.
+Proof.
+  intros HI HJ HL HN Hs. get_inv HI. get_inv4a HL. get_inv4c HN. clear HI HL HN.
+  inv_step Hs; simp_st; intros n' i' Hc' Hr'; destruct (Hgo n') as [G1 G2];
+    repeat (hist_simp2;
+            match goal with H : context [if ?b then _ else _] |- _ => destruct b eqn:? end);
+    hist_simp2; ev_cases; rewrite ?orb_false_r, ?orb_true_r in *;
+    try (cbn in Hc'; discriminate);
+    rewrite ?Nat.add_0_r;
+    try (eapply Hgf; eassumption);
+    try (apply Hgr in Hr'; congruence);
+    try (rewrite G2 by congruence; reflexivity);
+    try congruence;
+    try (exfalso;
+         match goal with
+         | E : pcs ?s ?t = RRec ?i |- _ =>
+             assert (X : once s = ODone) by (eapply Hgc; eassumption);
+             destruct (all_delegated_when_done s HJ X) as [_ Hall]; destruct (Hall i) as [Y|Y];
+             [eapply Hrr; eassumption | congruence]
+         end).
+Qed.
+
+Lemma step_inv4c prog s t s' : Inv1 s -> Inv2 s -> Inv4a s -> Inv4c s -> step false prog s t = Some s' -> Inv4c s'.
+Proof.
+  intros HI HJ HL HN Hs. constructor.
+  - eapply step_gonce; eassumption.
+  - eapply step_gret; eassumption.
+  - eapply step_gcall; eassumption.
+  - eapply step_gnocall; eassumption.
+  - eapply step_gfwd; eassumption.
+Qed.
+
+Lemma init_inv4c : Inv4c init.
+Proof. constructor; cbn; intros; try reflexivity; try discriminate. split; [lia | reflexivity]. Qed.
+
+(** ** Everything together, along every schedule *)
+Record Full (s : st) : Prop := mkFull {
+  f_inv : Inv s; f_1b : Inv1b s; f_4a : Inv4a s; f_4b : Inv4b s; f_4c : Inv4c s }.
+
+Lemma step_full prog s t s' : Full s -> step false prog s t = Some s' -> Full s'.
+Proof.
+  intros [[HI [HJ HK]] HB HL HM HN] Hs. constructor.
+  - eapply step_inv; [|eassumption]. split; [|split]; assumption.
+  - eapply step_inv1b; eassumption.
+  - eapply step_inv4a; eassumption.
+  - eapply step_inv4b; eassumption.
+  - eapply step_inv4c; eassumption.
+Qed.
+
+Lemma init_full : Full init.
+Proof. constructor; [apply init_inv | apply init_inv1b | apply init_inv4a | apply init_inv4b | apply init_inv4c]. Qed.
+
+Lemma run_full prog sch : forall s0 s, Full s0 -> run false prog s0 sch = Some s -> Full s.
+Proof.
+  induction sch as [|t r IH]; cbn; intros s0 s H0 Hr.
+  - inversion Hr; subst. exact H0.
+  - destruct (step false prog s0 t) eqn:Hs; [|discriminate]. eapply IH; [|exact Hr]. eapply step_full; eassumption.
+Qed.
+
+Lemma reachable_full prog sch s : run false prog init sch = Some s -> Full s.
+Proof. apply run_full, init_full. Qed.
